@@ -9,7 +9,7 @@ import (
 var verifVocabStmt = []string{
 	"SELECT 1", "SELECT 1,", "SELECT a, FROM t", "SELECT 1 FROM t WHERE a", "DELETE FROM t WHERE TRUE", "INSERT INTO t (a) VALUES (1)",
 	"CREATE TABLE t (a INT64,) PRIMARY KEY (a)", "DROP TABLE t", "CALL p()", "", "SELECT )", "SELECT (1", "UPDATE t SET a = 1 WHERE TRUE", "@{h=1} SELECT 1", "/*c*/",
-	"CREATE INDEX i ON t (a)", "GRANT SELECT ON TABLE t TO ROLE r",
+	"CREATE INDEX i ON t (a)", "GRANT SELECT ON TABLE t TO ROLE r", "CREATE CHANGE STREAM s FOR ALL", "ALTER CHANGE STREAM s SET FOR ALL /* c */", "SELECT 1 /* c */",
 }
 
 var verifVocabSep = []string{";", ";;", " ; ", ";/*c*/", "\n;\n", ";--c\n"}
